@@ -86,6 +86,8 @@ type interpreter struct {
 	trace     bool
 	directInit bool
 	iteCache   map[iteKey]*Term
+	methodLookups []string // reflect.MethodByName hits on this path
+	methodCalls   []string // functions invoked through reflect.Value.Call on this path
 }
 
 type deferred struct {
